@@ -152,6 +152,8 @@ def readOnlyExternals : List String :=
    "(reflect.Type).ConvertibleTo", "(reflect.Type).Comparable", "(reflect.Type).Len",
    "(reflect.Value).Convert", "(reflect.Value).CanConvert", "(reflect.Value).FieldByIndex", "(reflect.Value).IsZero",
    "(reflect.Value).Int", "(reflect.Value).Uint", "(reflect.Value).Float", "(reflect.Value).Bool", "(reflect.Value).Cap",
+   "(reflect.Value).CanAddr", "(reflect.Value).CanSet", "(reflect.Value).Addr", "reflect.New", "reflect.MakeSlice",
+   "reflect.MakeMap", "reflect.MakeMapWithSize",
    "fmt.Errorf", "fmt.Sprintf", "reflect.DeepEqual", "reflect.FuncOf", "reflect.Indirect", "reflect.SliceOf",
    "reflect.TypeOf", "reflect.ValueOf", "reflect.Zero", "regexp.MatchString", "regexp.Compile",
    "strings.Contains", "strings.HasPrefix", "strings.HasSuffix", "strings.Replace"]
@@ -168,9 +170,13 @@ theorem user_call_sites_as_expected :
       ["ast.(*walker).walk: w.visitor.Enter", "ast.(*walker).walk: w.visitor.Exit", "expr.Compile: op",
        "vm.(*VM).Run: fn.(func(...interface{}) interface{})"] := by decide +kernel
 
-/-- the only constructors assumed to return unaliased fresh values -/
+/-- the only constructors assumed to return unaliased fresh values (the reflect ones take type descriptors and
+    sizes only; a reflect setter on a value made by them is a write to memory of this call, any other reflect
+    setter is classified by what its receiver denotes and caught by `shared_writes_empty`) -/
 theorem fresh_constructors_as_expected :
-    (Gen.Writes.assumedFreshConstructors.all fun c => ["fmt.Errorf", "errors.New", "regexp.Compile"].contains c) = true := by
+    (Gen.Writes.assumedFreshConstructors.all fun c =>
+      ["fmt.Errorf", "errors.New", "regexp.Compile", "reflect.New", "reflect.Zero", "reflect.MakeSlice", "reflect.MakeMap",
+       "reflect.MakeMapWithSize"].contains c) = true := by
   decide +kernel
 
 /-- the library starts no goroutine, uses no select, and imports no sync / atomic / unsafe / time / rand /
